@@ -224,3 +224,40 @@ def _expect_value_error(chunks, shape):
     if len(spec) != len(shape):
         return True
     return any(isinstance(c, tuple) and sum(c) != s for c, s in zip(spec, shape))
+
+
+@contract("dask_array/_overlap.py::ensure_minimum_chunksize", props=["C19"])
+class ensure_minimum_chunksize:
+    """merging too-small chunks keeps the total, makes every chunk at least `size`, or refuses (ValueError) when the
+    whole axis is shorter than `size`; unchanged when already large enough"""
+    params = {"size": "int", "chunks": "seq"}
+    result = "seq"
+
+    def requires(size, chunks):
+        return S.And(S.slen(chunks) >= 1, S.chunking(chunks), size >= 0)
+
+    raises = {"ValueError": lambda size, chunks: S.ssum(chunks) < size}
+
+    def ensures(result, size, chunks):
+        return {
+            "sum": S.ssum(result) == S.ssum(chunks),
+            "minimum": S.forall_idx(result, lambda j: S.at(result, j) >= size),
+            "nonempty": S.slen(result) >= 1,
+        }
+
+    loops = {
+        "for#1": Loop(invariant=lambda v, v0: {
+            "sum": S.ssum(v.output) + v.new == S.prefix(v.chunks, v.it),
+            "minimum": S.forall_idx(v.output, lambda j: S.at(v.output, j) >= v.size),
+            "new": v.new >= 0,
+        }),
+    }
+
+    def facts(size, chunks):
+        return [("prefix_nonneg", chunks)]
+
+    def domain(tier, rng):
+        from contracts.slicing import chunkings
+        for n, c in chunkings(7 if tier == "quick" else 10):
+            for size in range(0, 9):
+                yield {"size": size, "chunks": c}
